@@ -992,6 +992,8 @@ def analyse_to_angle(ctx: Any, rule: str, relpath: str, qual: str, body: List[as
     def hook(n: ast.Call, a: List[Any]) -> Any:
         return None
     interp = PolyInterp(ROLES.get, rename, branch=branch, filename=relpath, call_hook=hook)
+    if mod is not None:
+        interp.helpers = {q: fl[0] for q, fl in mod.all_funcs().items() if '.' not in q and q.startswith('_') and len(fl) == 1}       # type: ignore[attr-defined]
     paths = interp.run(body)
     if len(paths) < 2 or len(paths) > 6 or sum(1 for p_ in paths if p_.guards and p_.guards[0][1]) != 1:
         raise AnalysisError(f'{qual}: expected one normal path and at least one gimbal path, got {len(paths)} paths')
